@@ -70,6 +70,59 @@ def connect (nkeys : Nat) (replies : List Reply) : List Sent × ConnResult :=
     if nkeys = 0 then ([.cnxn], .authError)
     else keyLoop nkeys 0 msg rs [.cnxn]
 
+/-! ### connect with a handshake deadline
+
+`exp = some n`: the handshake time-out (`timeout_ms`) expires while the `n`-th message from now is being
+read (`none`: never). `read_until` returns a message of an expected kind even when the time-out has expired
+meanwhile, reads at least one message, and raises AdbTimeoutError as soon as an unexpected message has been
+read with the time-out expired. The public-key phase starts a fresh time-out (`auth_timeout_ms`). -/
+
+def tick (exp : Option Nat) : Option Nat := exp.map (· - 1)
+def expired (exp : Option Nat) : Bool := exp == some 0
+
+inductive RU
+  | got (r : Reply) (rest : List Reply) (exp : Option Nat)
+  | exhausted                    -- the transport's read time-out
+  | expiredNoise                 -- AdbTimeoutError: unrelated packets until the time-out expired
+deriving DecidableEq, Repr
+
+def readUntilE (wantAuth : Bool) : Option Nat → List Reply → RU
+  | _, [] => .exhausted
+  | exp, r :: rs =>
+    match r with
+    | .cnxn _ _ => .got r rs (tick exp)
+    | .authToken _ | .authOther =>
+      if wantAuth then .got r rs (tick exp) else if expired (tick exp) then .expiredNoise else readUntilE wantAuth (tick exp) rs
+    | .noise => if expired (tick exp) then .expiredNoise else readUntilE wantAuth (tick exp) rs
+
+def keyLoopE (nkeys : Nat) : (k : Nat) → (msg : Reply) → List Reply → Option Nat → List Sent → List Sent × ConnResult
+  | k, msg, rs, exp, sent =>
+    if h : k < nkeys then
+      match msg with
+      | .authToken t =>
+        let sent := sent ++ [.signature k t]
+        match readUntilE true exp rs with
+        | .exhausted | .expiredNoise => (sent, .timeoutError)
+        | .got (.cnxn m ok) _ _ => (sent, connectedOf (.cnxn m ok))
+        | .got msg' rs' exp' => keyLoopE nkeys (k + 1) msg' rs' exp' sent
+      | _ => (sent, .protocolError)
+    else
+      let sent := sent ++ [.publicKey 0]
+      -- a fresh PolledTimeout: if the handshake time-out has already expired, this one does not expire
+      match readUntilE false (if expired exp then none else exp) rs with
+      | .exhausted => (sent, .authError)
+      | .expiredNoise => (sent, .timeoutError)
+      | .got r _ _ => (sent, connectedOf r)
+termination_by k _ _ _ _ => nkeys - k
+
+def connectE (nkeys : Nat) (exp : Option Nat) (replies : List Reply) : List Sent × ConnResult :=
+  match readUntilE true exp replies with
+  | .exhausted | .expiredNoise => ([.cnxn], .timeoutError)
+  | .got (.cnxn m ok) _ _ => ([.cnxn], connectedOf (.cnxn m ok))
+  | .got msg rs exp' =>
+    if nkeys = 0 then ([.cnxn], .authError)
+    else keyLoopE nkeys 0 msg rs exp' [.cnxn]
+
 /-! ### local stream ids -/
 
 def probes : Nat := 64
